@@ -58,7 +58,14 @@ func c04Seeds() []c04Seed {
 			}
 			s := c04Seed{format: d.format, name: e.Name(), pkg: strings.ReplaceAll(e.Name(), "-", "_"), files: map[string][]byte{}, main: d.main}
 			c04ReadDir(filepath.Join(d.dir, e.Name()), s.files, "")
-			if _, ok := s.files[d.main]; ok {
+			if data, ok := s.files[d.main]; ok {
+				if d.format == "cue" {
+					for _, l := range strings.Split(string(data), "\n") {
+						if strings.HasPrefix(l, "package ") {
+							s.pkg = strings.TrimSpace(l[8:])
+						}
+					}
+				}
 				seeds = append(seeds, s)
 			}
 		}
@@ -87,10 +94,10 @@ func c04Seeds() []c04Seed {
 // ---------- pipeline configuration for a schema input ----------
 
 type c04Out struct {
-	langs                                      []string
+	langs                                     []string
 	types, builders, converters, apiReference bool
-	flags                                      map[string]bool
-	noValidate                                 bool
+	flags                                     map[string]bool
+	noValidate                                bool
 }
 
 func c04RandomOut(r *rng) c04Out {
@@ -139,17 +146,17 @@ func (o c04Out) describe() string {
 		strings.Join(o.langs, ","), o.types, o.builders, o.converters, o.apiReference, o.noValidate, strings.Join(fl, ","))
 }
 
-func (o c04Out) node() *jNode {
-	langs := jArr()
+func (o c04Out) node() *c04JNode {
+	langs := c04JArr()
 	for _, l := range o.langs {
-		cfg := jObj()
+		cfg := c04JObj()
 		switch l {
 		case "go":
-			cfg.set("package_root", jStr("example.com/lab"))
+			cfg.set("package_root", c04JStr("example.com/lab"))
 		case "java":
-			cfg.set("package_path", jStr("lab"))
+			cfg.set("package_path", c04JStr("lab"))
 		case "php":
-			cfg.set("namespace_root", jStr("Lab"))
+			cfg.set("namespace_root", c04JStr("Lab"))
 		}
 		var keys []string
 		for k := range o.flags {
@@ -158,27 +165,27 @@ func (o c04Out) node() *jNode {
 		sort.Strings(keys)
 		for _, k := range keys {
 			if o.flags[k] && strings.HasPrefix(k, l+".") {
-				cfg.set(k[len(l)+1:], jBool(true))
+				cfg.set(k[len(l)+1:], c04JBool(true))
 			}
 		}
-		langs.vals = append(langs.vals, jObj(l, cfg))
+		langs.vals = append(langs.vals, c04JObj(l, cfg))
 	}
-	return jObj("directory", jStr("out/%l"), "types", jBool(o.types), "builders", jBool(o.builders),
-		"converters", jBool(o.converters), "api_reference", jBool(o.apiReference), "languages", langs)
+	return c04JObj("directory", c04JStr("out/%l"), "types", c04JBool(o.types), "builders", c04JBool(o.builders),
+		"converters", c04JBool(o.converters), "api_reference", c04JBool(o.apiReference), "languages", langs)
 }
 
-func c04InputNode(format, pkg, main string, noValidate bool) *jNode {
+func c04InputNode(format, pkg, main string, noValidate bool) *c04JNode {
 	switch format {
 	case "jsonschema":
-		return jObj("jsonschema", jObj("path", jStr("%__config_dir%/in/"+main), "package", jStr(pkg)))
+		return c04JObj("jsonschema", c04JObj("path", c04JStr("%__config_dir%/in/"+main), "package", c04JStr(pkg)))
 	case "openapi":
-		in := jObj("path", jStr("%__config_dir%/in/"+main), "package", jStr(pkg))
+		in := c04JObj("path", c04JStr("%__config_dir%/in/"+main), "package", c04JStr(pkg))
 		if noValidate {
-			in.set("no_validate", jBool(true))
+			in.set("no_validate", c04JBool(true))
 		}
-		return jObj("openapi", in)
+		return c04JObj("openapi", in)
 	default:
-		return jObj("cue", jObj("entrypoint", jStr("%__config_dir%/"+pkg), "package", jStr(pkg)))
+		return c04JObj("cue", c04JObj("entrypoint", c04JStr("%__config_dir%/"+pkg), "package", c04JStr(pkg)))
 	}
 }
 
@@ -203,7 +210,7 @@ func c04RunCase(id, note string, s c04Seed, files map[string][]byte, out c04Out)
 	for rel, data := range files {
 		c.Files[filepath.Join(c04InputDir(s), rel)] = c04CuePackage(s, rel, data)
 	}
-	cfg := jObj("inputs", jArr(c04InputNode(s.format, s.pkg, s.main, out.noValidate)), "output", out.node())
+	cfg := c04JObj("inputs", c04JArr(c04InputNode(s.format, s.pkg, s.main, out.noValidate)), "output", out.node())
 	c.Files["cog.yaml"] = []byte(cfg.String())
 	c.Note = fmt.Sprintf("format=%s seed=%s %s %s", s.format, s.name, note, out.describe())
 	return c
@@ -221,8 +228,8 @@ func c04AllOut() c04Out {
 
 type c04Pinned struct {
 	name, format, text string
-	validate            bool
-	langs               []string
+	validate           bool
+	langs              []string
 }
 
 const c04OA = `{"openapi":"3.0.0","info":{"title":"t","version":"0"},"paths":{},"components":{"schemas":`
@@ -320,7 +327,7 @@ func c04MutCase(r *rng, seeds []c04Seed, i int) *c04Case {
 		}
 		data, note = []byte(txt), strings.Join(notes, ";")
 	case s.format != "cue" && mode < 85:
-		root, err := jParse(data)
+		root, err := c04JParse(data)
 		if err != nil {
 			data, note = c04MutateBytes(r, data)
 			break
